@@ -461,9 +461,54 @@ def unwrap_callable(obj):
         obj, kind = obj.fget, "property"
     elif hasattr(obj, "func") and obj.__class__.__name__ == "cached_property":
         obj, kind = obj.func, "property"
+    if obj.__class__.__name__ in ("Command", "Group") and hasattr(obj, "callback"):
+        obj = obj.callback            # a click command: the decorated function is its callback
     while hasattr(obj, "__wrapped__"):
         obj = obj.__wrapped__
     return obj, kind
+
+
+def _stmt_lists(node):
+    """every statement list below `node` (function bodies excluded)"""
+    for field in ("body", "orelse", "finalbody"):
+        lst = getattr(node, field, None)
+        if isinstance(lst, list) and lst and isinstance(lst[0], ast.stmt):
+            yield lst
+            for st in lst:
+                if not isinstance(st, (ast.FunctionDef, ast.AsyncFunctionDef, ast.ClassDef)):
+                    yield from _stmt_lists(st)
+    for h in getattr(node, "handlers", []) or []:
+        yield from _stmt_lists(h)
+    for c in getattr(node, "cases", []) or []:
+        yield from _stmt_lists(c)
+
+
+def extract_region(key, node, src, region):
+    """Mechanical extraction of a statement range of the real function as a synthetic FunctionDef over the region's
+    declared free variables.  Dropped: every statement of the function outside the range (named in the evidence)."""
+    start, end, params = region
+    lines = src.splitlines()
+
+    def first_line(st):
+        return lines[st.lineno - 1].strip()
+    hits = [(lst, i) for lst in _stmt_lists(node) for i, st in enumerate(lst) if first_line(st) == start]
+    if len(hits) != 1:
+        raise Stale(f"{key}: region start {start!r} matches {len(hits)} statements (need exactly 1)")
+    lst, i = hits[0]
+    j = len(lst)
+    if end is not None:
+        js = [k for k in range(i + 1, len(lst)) if first_line(lst[k]) == end]
+        if len(js) != 1:
+            raise Stale(f"{key}: region end {end!r} matches {len(js)} statements after the start in its block (need exactly 1)")
+        j = js[0]
+    body = lst[i:j]
+    fd = ast.FunctionDef(name=node.name + "__region", args=ast.arguments(posonlyargs=[], args=[ast.arg(arg=p) for p in params],
+                         vararg=None, kwonlyargs=[], kw_defaults=[], kwarg=None, defaults=[]), body=body, decorator_list=[],
+                         returns=None, type_comment=None)
+    fd.lineno, fd.col_offset = body[0].lineno, body[0].col_offset
+    fd.end_lineno, fd.end_col_offset = body[-1].end_lineno, body[-1].end_col_offset
+    ast.fix_missing_locations(fd)
+    return fd
 
 
 _src_cache: dict = {}
@@ -489,6 +534,9 @@ def load_function(key: str):
     if "".join(disk[start - 1:start - 1 + len(lines)]) != "".join(lines):
         raise Stale(f"{key}: imported source differs from file on disk")
     sha = hashlib.sha256(src.encode()).hexdigest()
+    from .dsl import REGIONS
+    if key in REGIONS:
+        node = extract_region(key, node, src, REGIONS[key])
     ast.increment_lineno(node, start - 1)
     res = (node, fn, kind, sha, fname, owner)
     _src_cache[key] = res
